@@ -16,12 +16,22 @@ import warnings
 
 def main():
     job = json.loads(open(sys.argv[1]).read())
-    import common
-
-    common.use_repo()
-    # lenskit logs through structlog (rich tracebacks with locals for every failing node): silence it
+    # (not `import common`: for a scratch tree that module re-syncs the Coq directory at import time, which must not
+    #  happen concurrently in every worker)
     import logging
+    import os
+    from pathlib import Path
 
+    src = str(Path(os.environ.get("VERIF_REPO", "/repo")).resolve() / "src")
+    if src in sys.path:
+        sys.path.remove(src)
+    sys.path.insert(0, src)
+    logging.disable(logging.CRITICAL)
+    import lenskit
+
+    if not str(Path(lenskit.__file__).resolve()).startswith(src):
+        raise RuntimeError(f"lenskit imported from {lenskit.__file__}, wanted {src}")
+    # lenskit logs through structlog (rich tracebacks with locals for every failing node): silence it
     import structlog
 
     structlog.configure(wrapper_class=structlog.make_filtering_bound_logger(logging.CRITICAL))
